@@ -846,3 +846,17 @@ ASSUMPTIONS = ['a field element is modelled by its standard-form integer (into_b
                'affine group law (the shipped fast tests are property C12)']
 HYPOTHESES = ['field_theory of the base field (point theorems)', 'sqrt oracle specification (sqrt_some / sqrt_none)',
               'cmp is a total order compatible with equality (cmp_eq / cmp_antisym)', 'te: a <> d']
+
+# T-field translator, table 2: see props/C13/prop.py (coordinate recovery / to_flags / from_x_coordinate = C09 models)
+STRICT_PROP_FILES = ['Gen2']
+
+
+def _gen2_regen(ctx):
+    import importlib.util, os
+    sp = importlib.util.spec_from_file_location('gen_pre2', os.path.join(ctx['ROOT'], 'props', 'Gen', 'pre2.py'))
+    m = importlib.util.module_from_spec(sp); sp.loader.exec_module(m)
+    m.regen(ctx)
+
+
+def pre(ctx):
+    _gen2_regen(ctx)
